@@ -25,7 +25,10 @@ CHECKER_CMD = './check %s %s'
 
 def load_units(prop):
     mod = importlib.import_module('contracts.' + prop.lower())
-    return mod, list(mod.UNITS)
+    units = list(mod.UNITS)
+    if hasattr(mod, 'extra_units'):
+        units += mod.extra_units()
+    return mod, units
 
 
 def _worker(job):
